@@ -94,6 +94,7 @@ def build(chk: Check) -> None:
     chk.extra["exhaustive_over_configuration_product"] = chk.tier == "thorough"
 
     closure_lemma(chk)
+    define_missing_amplitudes_contract(chk)
 
 
 def closure_lemma(chk: Check) -> None:
@@ -125,3 +126,95 @@ def closure_lemma(chk: Check) -> None:
                  function="ampform.helicity.HelicityAmplitudeBuilder.__formulate_top_expression", tactics=("default",))
     chk.smt("closure.A[contract=zero-fill]", pools + zero_fill, z3.Implies(ranged(x, y), defined(x, y)),
             function="ampform.helicity.HelicityAmplitudeBuilder.__formulate_top_expression", lemma=True, tactics=("default",))
+
+
+def define_missing_amplitudes_contract(chk: Check) -> None:
+    """Layer (i), E3, for ALL reactions and alignments: the real `__define_missing_amplitudes(intensity)` executed symbolically
+    with the unfolded intensity's set of amplitude symbols an arbitrary finite list A[0..L) and the amplitude dictionary an
+    arbitrary finite map.  ens: afterwards every A[k] is a key; keys that existed keep their definition; new keys map to 0.
+    Together with `HelicityModel.expression = _unfold_poolsums(intensity.evaluate()).xreplace(amplitudes)` (same unfolding
+    function, checked structurally) this is clause (A) of the postcondition of formulate() without a bound on the reaction."""
+    import ast
+    import inspect
+    import textwrap
+
+    from ampform import helicity as H
+    from vlib.pyvc import Executor, Obj, Rec, SList, SMap, SV, State, Unsupported
+
+    FN = "ampform.helicity.HelicityAmplitudeBuilder.__define_missing_amplitudes"
+
+    def zoo_replay(_m=None):
+        for cfg in models.config_space("quick", ["etac_lambda_lambdabar", "jpsi_k0_sigma_pbar_partial", "jpsi_gamma_pi0_pi0"]):
+            try:
+                post = postconditions(models.build(cfg))
+            except Exception as e:  # noqa: BLE001
+                return {"reproduced": True, "input": cfg.tag, "observed": f"{type(e).__name__}: {e}"}
+            if not post["A.amplitudes_defined"][0]:
+                return {"reproduced": True, "input": cfg.tag, "observed": post["A.amplitudes_defined"][1], "expected": "no undefined amplitude symbol"}
+        return {"reproduced": False}
+
+    meth = getattr(H.HelicityAmplitudeBuilder, "_HelicityAmplitudeBuilder__define_missing_amplitudes", None)
+    chk.struct("define_missing_amplitudes.exists", meth is not None, FN, lemma=True, replay=zoo_replay,
+               witness="formulate() must define the amplitudes the intensity ranges over; the contract is stated on this method")
+    if meth is None:
+        return
+    ex = Executor("dma")
+    has0, val0 = z3.Array("amp_has0", Obj, z3.BoolSort()), z3.Array("amp_val0", Obj, Obj)
+    amp = Rec("Mapping", {"__map__": SMap(has0, val0)})
+    self_rec = Rec("Builder", {"__ingredients": Rec("Ingredients", {"amplitudes": amp})})
+    L, A = z3.Int("n_atoms"), z3.Array("atoms", z3.IntSort(), Obj)
+    unfolded = z3.Const("unfolded_intensity", Obj)
+    ex.natives["_unfold_poolsums"] = lambda e, st, a, k: iter([(st, SV(unfolded, "obj"))])
+    ex.natives["obj.evaluate"] = lambda e, st, a, k: iter([(st, SV(z3.Const("evaluated_intensity", Obj), "obj"))])
+    ex.natives["obj.atoms"] = lambda e, st, a, k: iter([(st, SV(z3.Const("atom_set", Obj), "obj"))])
+    ex.natives["sorted"] = lambda e, st, a, k: iter([(st, SList(L, A, "obj"))])
+    chk.assume("native contracts: sorted(S, key=str) lists exactly the elements of the set S; expr.atoms(Indexed) is the set of amplitude symbols of expr; "
+               "_unfold_poolsums / evaluate are pure (A-pure)")
+    kq = z3.Int("k!q")
+    xq = z3.Const("x!q", Obj)
+
+    def inv(e, st, i):
+        m = st.env["self"].attrs["__ingredients"].attrs["amplitudes"].attrs["__map__"]
+        return z3.And(
+            z3.ForAll([kq], z3.Implies(z3.And(kq >= 0, kq < i), z3.Select(m.has, z3.Select(A, kq)))),
+            z3.ForAll([xq], z3.Implies(z3.Select(has0, xq), z3.And(z3.Select(m.has, xq), z3.Select(m.val, xq) == z3.Select(val0, xq)))),
+            z3.ForAll([xq], z3.Implies(z3.And(z3.Select(m.has, xq), z3.Not(z3.Select(has0, xq))), z3.Select(m.val, xq) == e.as_obj(sp.S.Zero))),
+        )
+
+    def havoc(e, st):
+        e.fresh_n += 1
+        st.env["self"].attrs["__ingredients"].attrs["amplitudes"].attrs["__map__"] = SMap(
+            z3.Array(f"amp_has!{e.fresh_n}", Obj, z3.BoolSort()), z3.Array(f"amp_val!{e.fresh_n}", Obj, Obj))
+
+    ex.invariants[("__define_missing_amplitudes", 0)] = inv
+    ex.havocs[("__define_missing_amplitudes", 0)] = havoc
+    st = State()
+    st.pc.append(L >= 0)
+    try:
+        outs = ex.run(meth, [self_rec, SV(z3.Const("intensity", Obj), "obj")], st=st)
+    except Unsupported as e:
+        chk.struct("define_missing_amplitudes.in_supported_subset", False, FN, witness=str(e), lemma=True, replay=zoo_replay)
+        return
+    chk.struct("define_missing_amplitudes.in_supported_subset", True, FN, lemma=True)
+    for o in ex.merged_obligations():
+        chk.smt(f"define_missing_amplitudes.{o.name.split('.')[-1]}", o.hyps, o.claim, function=FN, lemma=True, replay=zoo_replay, tactics=("default",))
+    posts, no_raise = [], []
+    for oc in outs:
+        pc = z3.And(*oc.st.pc) if oc.st.pc else z3.BoolVal(True)
+        if oc.kind == "raise":
+            no_raise.append(z3.Not(pc))
+            continue
+        m = oc.st.env["self"].attrs["__ingredients"].attrs["amplitudes"].attrs["__map__"] if "self" in oc.st.env else self_rec.attrs["__ingredients"].attrs["amplitudes"].attrs["__map__"]
+        posts.append(z3.Implies(pc, z3.ForAll([kq], z3.Implies(z3.And(kq >= 0, kq < L), z3.Select(m.has, z3.Select(A, kq))))))
+        posts.append(z3.Implies(pc, z3.ForAll([xq], z3.Implies(z3.Select(has0, xq), z3.Select(m.val, xq) == z3.Select(val0, xq)))))
+    chk.smt("define_missing_amplitudes.ens.every_amplitude_symbol_of_the_intensity_is_defined_and_existing_definitions_kept", [], z3.And(*posts) if posts else z3.BoolVal(False),
+            function=FN, replay=zoo_replay, tactics=("default",))
+    chk.smt("define_missing_amplitudes.ens.never_raises", [], z3.And(*no_raise) if no_raise else z3.BoolVal(True), function=FN, replay=zoo_replay, tactics=("default",))
+    # the model's `expression` unfolds with the same function and substitutes the amplitude dictionary
+    src = textwrap.dedent(inspect.getsource(H.HelicityModel.expression.fget))
+    calls = {ast.unparse(n.func) for n in ast.walk(ast.parse(src)) if isinstance(n, ast.Call)}
+    chk.struct("HelicityModel.expression.unfolds_with__unfold_poolsums_and_substitutes_amplitudes", "_unfold_poolsums" in calls and any(c.endswith(".xreplace") for c in calls),
+               "ampform.helicity.HelicityModel.expression", witness=sorted(calls), lemma=True, replay=zoo_replay)
+    call_sites = textwrap.dedent(inspect.getsource(getattr(H.HelicityAmplitudeBuilder, "_HelicityAmplitudeBuilder__formulate_top_expression")))
+    chk.struct("formulate_top_expression.calls_define_missing_amplitudes_on_the_intensity", "__define_missing_amplitudes(intensity)" in call_sites,
+               "ampform.helicity.HelicityAmplitudeBuilder.__formulate_top_expression", witness=call_sites[-300:], lemma=True, replay=zoo_replay)
